@@ -45,7 +45,7 @@ PROPS = {
                 configs=['dbg', 'rel-plain'], need=['create', 'destroy']),
     'C09': dict(title='A direct handle never designates another entity and dies with any removal',
                 coq=['props/C09.vo'], tags=[9],
-                streams=[('w1', 'S8', 50, 60), ('w2', 'S8', 20, 60), ('w1', 'S6', 20, 50)],
+                streams=[('w1', 'S8', 50, 60), ('w2', 'S8', 20, 60), ('w1', 'S6', 20, 50), ('w1', 'S7', 15, 60)],
                 configs=['dbg', 'rel'], need=['todirect', 'destroy']),
     'C10': dict(title='A panic escaping any operation leaves the world consistent and memory-safe',
                 coq=['props/C10.vo'], side='leak', tags=[10, 4],
